@@ -28,11 +28,53 @@ def srctab_tla() -> str:
     return "G_SrcTab(s) == CASE " + arms + ' [] OTHER -> [kind |-> "none", name |-> "", alias |-> "", schema |-> ""]\n'
 
 
+def _ext():
+    """opaque term classes built by class name (C12: every Term subclass honours its alias)"""
+    import pypika_tortoise as P
+    from pypika_tortoise import analytics as an
+    from pypika_tortoise import functions as fn
+    from pypika_tortoise.enums import DatePart
+    from pypika_tortoise.terms import All, AtTimezone, Bracket, LiteralValue, NullValue, PseudoColumn, Tuple, Values
+
+    return {
+        "Tuple": lambda e: Tuple(e.src["T1"].b, 1),
+        "Array": lambda e: P.Array(1, 2),
+        "Bracket": lambda e: Bracket(e.src["T1"].b + 1),
+        "JSON": lambda e: P.JSON({"k": 1}),
+        "LiteralValue": lambda e: LiteralValue("LIT"),
+        "NullValue": lambda e: NullValue(),
+        "PseudoColumn": lambda e: PseudoColumn("ROWNUM"),
+        "Parameter": lambda e: P.Parameter("?"),
+        "AtTimezone": lambda e: AtTimezone(e.src["T1"].b, "UTC"),
+        "BitwiseAndCriterion": lambda e: e.src["T1"].b.bitwiseand(2),
+        "All": lambda e: All(e.src["T1"].b),
+        "Index": lambda e: P.Index("ix"),
+        "AggregateFilter": lambda e: fn.Sum(e.src["T1"].b).filter(e.src["T1"].c == 1),
+        "Count": lambda e: fn.Count("*"),
+        "AnalyticFunction": lambda e: an.Rank().over(e.src["T1"].b),
+        "WindowFrame": lambda e: an.Sum(e.src["T1"].b).over(e.src["T1"].c).rows(an.Preceding(1)),
+        "Cast": lambda e: fn.Cast(e.src["T1"].b, "INT"),
+        "Extract": lambda e: fn.Extract(DatePart.year, e.src["T1"].b),
+        "Mod": lambda e: e.src["T1"].b % 2,
+        "Pow": lambda e: e.src["T1"].b ** 2,
+        "JSONop": lambda e: e.src["T1"].b.get_json_value("k"),
+        "Like": lambda e: e.src["T1"].b.like("x%"),
+        "Xor": lambda e: (e.src["T1"].b == 1) ^ (e.src["T1"].c == 2),
+    }
+
+
+EXT = None
+
+
 class Env:
     """fresh objects for one execution under one dialect class"""
 
     def __init__(self, Q):
         import pypika_tortoise as P
+
+        global EXT
+        if EXT is None:
+            EXT = _ext()
 
         self.Q = Q
         self.P = P
@@ -79,6 +121,8 @@ class Env:
             r = cls(*args) if cls else Function(t["f"], *args)
         elif k == "case":
             r = P.Case().when(self.term(t["w"]), self.term(t["t"])).else_(self.term(t["e"]))
+        elif k == "ext":
+            r = EXT[t["cls"]](self)
         else:
             raise core.MachineryError("term kind " + k)
         if al:
